@@ -37,6 +37,7 @@ type c13Fault struct {
 type c13Plan struct {
 	W          c12Workload `json:"workload"`
 	Concurrent bool        `json:"concurrent"`
+	AutoClear  bool        `json:"auto_clear"`
 	Fault      c13Fault    `json:"fault"`
 	Hold       *c12Hold    `json:"hold,omitempty"`
 }
@@ -150,6 +151,7 @@ func c13Exec(r *obs.Run, p c13Plan, vals []int) (out c13Outcome) {
 		out.Panicked = "harness: morass.New: " + err.Error()
 		return
 	}
+	m.AutoClear = p.AutoClear
 	ents, _ := os.ReadDir(scratch)
 	inj := &c13Inj{fault: p.Fault, counts: map[string]int{}}
 	if len(ents) == 1 {
@@ -260,6 +262,7 @@ func c13Items(r *obs.Run) []c13Item {
 			for _, kind := range []string{"create", "sync", "seek"} {
 				for n := 1; n <= bounds[kind]; n++ {
 					items = append(items, c13Item{plan: c13Plan{W: w, Concurrent: conc, Fault: c13Fault{kind, n}}})
+					items = append(items, c13Item{plan: c13Plan{W: w, Concurrent: conc, AutoClear: true, Fault: c13Fault{kind, n}}})
 					if conc && n <= w.writers() {
 						for _, y := range []string{"push.handoff.next", "finalise.enter"} {
 							items = append(items, c13Item{plan: c13Plan{W: w, Concurrent: true, Fault: c13Fault{kind, n}, Hold: &c12Hold{n, "write.return", y}}})
@@ -270,6 +273,14 @@ func c13Items(r *obs.Run) []c13Item {
 			// writes and reads: ordinals are enumerated up to a generous bound; the census decides which exist
 			items = append(items, c13Item{plan: c13Plan{W: w, Concurrent: conc, Fault: c13Fault{"write", -1}}})
 			items = append(items, c13Item{plan: c13Plan{W: w, Concurrent: conc, Fault: c13Fault{"read", -1}}})
+		}
+	}
+	// large chunks: run files longer than gob's 4096-byte read buffer, so that reads also happen (and can fail) in the
+	// middle of a run during Pull; every read ordinal, a sample of the write ordinals
+	for _, w := range []c12Workload{{400, 2, 150}, {700, 1, 300}, {450, 3, 0}} {
+		for _, conc := range []bool{false, true} {
+			items = append(items, c13Item{plan: c13Plan{W: w, Concurrent: conc, Fault: c13Fault{"read", -1}}})
+			items = append(items, c13Item{plan: c13Plan{W: w, Concurrent: conc, Fault: c13Fault{"write", -2}}})
 		}
 	}
 	ns := r.Pick(6, 40)
@@ -304,7 +315,7 @@ func init() {
 		Case:        c13Case,
 		MinDistinct: func(t string) int { return 500 },
 		Floors: func(string) map[string]int64 {
-			return map[string]int64{"fault_runs": 400, "faults_reached": 350, "faults_create": 40, "faults_write": 100, "faults_sync": 40, "faults_seek": 40, "faults_read": 80, "errors_reported": 350,
+			return map[string]int64{"fault_runs": 800, "faults_reached": 700, "faults_create": 80, "faults_write": 200, "faults_sync": 80, "faults_seek": 80, "faults_read": 160, "errors_reported": 700, "faults_with_autoclear": 300, "faults_read_in_long_runs": 30,
 				"strace_injections_hit": 3, "residue_histories": 500, "residue_autoclean_drains": 60, "residue_autoclear_drains": 100}
 		},
 		Assumptions: []string{"exactly one operation is made to fail per run; later failures caused by it (a closed or removed file) are consequences, not additional injections",
@@ -321,14 +332,31 @@ func c13Case(r *obs.Run, i int) {
 		c13Residue(r)
 	case it.strace != "":
 		c13Strace(r, it.strace)
+	case it.plan.Fault.N == -2:
+		// a sample of the write ordinals of a large workload
+		vals := c13Vals(it.plan.W)
+		cen := c13Census(r, it.plan.W, it.plan.Concurrent, vals)
+		total := cen[it.plan.Fault.Kind]
+		for k := 0; k < 10 && total > 0; k++ {
+			p := it.plan
+			p.Fault.N = []int{1, total, total / 2}[k%3]
+			if k >= 3 {
+				p.Fault.N = 1 + r.Rng.Intn(total)
+			}
+			p.AutoClear = k%2 == 0
+			c13One(r, p, vals)
+		}
 	case it.plan.Fault.N == -1:
 		// enumerate every write (or read) ordinal of this workload
 		vals := c13Vals(it.plan.W)
 		cen := c13Census(r, it.plan.W, it.plan.Concurrent, vals)
 		for n := 1; n <= cen[it.plan.Fault.Kind]; n++ {
-			p := it.plan
-			p.Fault.N = n
-			c13One(r, p, vals)
+			for _, ac := range []bool{false, true} {
+				p := it.plan
+				p.Fault.N = n
+				p.AutoClear = ac
+				c13One(r, p, vals)
+			}
 		}
 	default:
 		c13One(r, it.plan, c13Vals(it.plan.W))
@@ -339,7 +367,7 @@ func c13One(r *obs.Run, p c13Plan, vals []int) {
 	r.Crumb(fmt.Sprintf("%+v hold=%+v", p, p.Hold))
 	out := c13Exec(r, p, vals)
 	r.Count("fault_runs", 1)
-	sig := fmt.Sprintf("%+v/%v/%+v/%+v", p.W, p.Concurrent, p.Fault, p.Hold)
+	sig := fmt.Sprintf("%+v/%v/%v/%+v/%+v", p.W, p.Concurrent, p.AutoClear, p.Fault, p.Hold)
 	w := map[string]interface{}{"plan": p, "values": vals, "outcome": out}
 	if strings.HasPrefix(out.Panicked, "harness:") {
 		r.Inconclusive(out.Panicked)
@@ -347,6 +375,12 @@ func c13One(r *obs.Run, p c13Plan, vals []int) {
 	}
 	if out.Panicked != "" {
 		r.Violate("panic", fmt.Sprintf("%s #%d failing (%s): panic: %s", p.Fault.Kind, p.Fault.N, out.FiredAt, out.Panicked), w)
+	}
+	if out.Fired && p.AutoClear {
+		r.Count("faults_with_autoclear", 1)
+	}
+	if out.Fired && p.Fault.Kind == "read" && p.W.Chunk >= 400 {
+		r.Count("faults_read_in_long_runs", 1)
 	}
 	if out.Fired {
 		r.Count("faults_reached", 1)
